@@ -22,6 +22,7 @@ func (w *World) registerMoreIntrinsics() {
 	w.registerCryptoIntrinsics()
 	w.registerReflectIntrinsics()
 	w.registerCipherIntrinsics()
+	w.registerPackIntrinsics()
 	terms := func(e *Exec, v Value) []*Term {
 		var ts []*Term
 		for _, x := range e.sliceElems(v.(*SliceVal)) {
